@@ -4,23 +4,30 @@ Creates selftest/patches/<prop>/<name>.diff by replacing OLD with NEW (exactly o
 import subprocess, sys, os, tempfile, shutil
 prop, name, path = sys.argv[1:4]
 expects = sys.argv[4:]
-old, new = sys.stdin.read().split('\n=====\n')
-old = old.strip('\n'); new = new.rstrip('\n').lstrip('\n')
+pairs = []
+for chunk in sys.stdin.read().split('\n#####\n'):
+    o, n = chunk.split('\n=====\n') if '\n=====\n' in chunk else (chunk.rstrip('\n').rsplit('\n=====',1)[0], '')
+    pairs.append((o.strip('\n'), n.rstrip('\n').lstrip('\n')))
 tmp = tempfile.mkdtemp(prefix='webp-mk.')
 wt = os.path.join(tmp, 'wt')
 subprocess.check_call(['git', '-C', '/repo', 'worktree', 'add', '--detach', wt, 'HEAD'], stdout=subprocess.DEVNULL, stderr=subprocess.DEVNULL)
 try:
     p = os.path.join(wt, path)
     s = open(p).read()
-    if s.count(old) != 1:
-        sys.exit('OLD occurs %d times in %s' % (s.count(old), path))
-    open(p, 'w').write(s.replace(old, new))
+    for old, new in pairs:
+        if s.count(old) != 1:
+            sys.exit('OLD occurs %d times in %s: %r' % (s.count(old), path, old[:60]))
+        s = s.replace(old, new)
+    open(p, 'w').write(s)
     diff = subprocess.check_output(['git', '-C', wt, 'diff'], text=True)
     d = os.path.join('/verif/selftest/patches', prop)
     os.makedirs(d, exist_ok=True)
     with open(os.path.join(d, name + '.diff'), 'w') as f:
         for e in expects:
-            f.write('# expect: %s\n' % e)
+            if e == 'CLEAN':
+                f.write('# expect-clean\n')
+            else:
+                f.write('# expect: %s\n' % e)
         f.write(diff)
     print('wrote', os.path.join(d, name + '.diff'))
 finally:
